@@ -262,6 +262,11 @@ func (r SendErrReason) String() string {
 // Returns:
 //   - true if the error is temporary, false otherwise.
 func isTempError(err error) bool {
+	// The SMTP reply may be wrapped (e.g. by ResetWithSMTPClient), same as in errorCode
+	rootErr := errors.Unwrap(err)
+	if rootErr != nil {
+		err = rootErr
+	}
 	return err.Error()[0] == '4'
 }
 
